@@ -107,7 +107,7 @@ def set_limits(vlimit_gb):
     return fn
 
 
-def run_shards(pid, tier, tcfg, variant, binary, wdir, seed, extra_env=None):
+def run_shards(pid, tier, tcfg, variant, binary, wdir, seed, extra_env=None, rnd=0, rounds=1):
     """Run all shards of one build variant in parallel; returns list of dicts."""
     cfg = PROPS[pid]
     nshards = tcfg["shards"]
@@ -120,7 +120,7 @@ def run_shards(pid, tier, tcfg, variant, binary, wdir, seed, extra_env=None):
     maxpar = min(NCPU, tcfg.get("parallel", NCPU))
 
     def start(i):
-        tag = "%s-%d" % (variant["name"], i)
+        tag = "%s-%d" % (variant["name"], i) if rounds == 1 else "%s-r%d-%d" % (variant["name"], rnd, i)
         env = dict(GOENV)
         env.update({
             "VERIF_OUT": os.path.join(wdir, "shard-%s.json" % tag),
@@ -130,8 +130,8 @@ def run_shards(pid, tier, tcfg, variant, binary, wdir, seed, extra_env=None):
             "VERIF_KNOWN": os.path.join(VERIF, "known_findings.json"),
             "VERIF_SEED": str(seed),
             "VERIF_TIER": tier,
-            "VERIF_SHARD": str(i),
-            "VERIF_NSHARDS": str(nshards),
+            "VERIF_SHARD": str(i + rnd * nshards),
+            "VERIF_NSHARDS": str(nshards * rounds),
             "VERIF_SCALE": str(tcfg.get("scale", 1) * float(os.environ.get("VERIF_SCALE", "1") or "1")),
             "VERIF_SAVED": saved,
             "VERIF_BUILD": variant["name"],
@@ -238,8 +238,13 @@ def run_check(pid, tier, replay=None):
             vt = dict(tcfg)
             if "shards" in v:
                 vt["shards"] = v["shards"]
-            res = run_shards(pid, tier, vt, v, binaries[v["name"]], wdir, seed)
-            all_results += [(v, r) for r in res]
+            # rounds: the shard set is run several times in fresh processes (different shard indices, hence different
+            # seeds and disjoint parts of the enumerations) instead of scaling the count inside one process: the json
+            # codec cache is copy-on-write, so the cost of fresh types grows quadratically within a process.
+            rounds = int(vt.get("rounds", 1))
+            for rnd in range(rounds):
+                res = run_shards(pid, tier, vt, v, binaries[v["name"]], wdir, seed, rnd=rnd, rounds=rounds)
+                all_results += [(v, r) for r in res]
 
     # ---- native fuzzing campaigns (thorough tier only; time-boxed, not seed-reproducible: the saved input is the reproducible unit)
     fuzz_stats = {}
@@ -496,7 +501,7 @@ NOT_YET = {}
 
 # Properties whose check has been reviewed, is silent on the unchanged tree at several seeds and has
 # caught seeded mutations; only these are claimed in MANIFEST.json.
-REGISTERED = ["C01", "C02", "C03", "C05", "C06", "C07", "C09", "C10", "C11", "C12", "C14", "C15", "C16", "C17", "C18", "C19", "C20"]
+REGISTERED = ["C%02d" % i for i in range(1, 21)]
 
 
 def main(argv):
